@@ -16,12 +16,12 @@ Definition run_model (c : case) : obs :=
 Definition same_dict (a b : dict) : bool := same (VDict a) (VDict b).
 
 Definition holds (c : case) (o : obs) : list string :=
-  match o, run_spec (cC c) (cO c) (cT c) with
+  match o, run_spec (cV c) (cC c) (cO c) (cT c) with
   | Ok d, Ok d' => if same_dict d d' then [] else ["data_equals_spec"%string]
   | Err e, Err e' => if exc_eqb e e' then [] else ["error_class"%string]
   | Ok _, Err _ => ["error_expected"%string]
   | Err e, Ok _ =>
-      if run_empty_case (cC c) (cO c) (cT c) && exc_eqb e ValueError
+      if run_empty_case (cV c) (cC c) (cO c) (cT c) && exc_eqb e ValueError
       then ["empty_piece_list_raises"%string] else ["unexpected_error"%string]
   end.
 
@@ -51,5 +51,5 @@ Definition entry (x : sx) : sx :=
   | Some (c, io) =>
       let m := run_model c in
       L [ sx_of_res sx_of_dict m; L (map sxS (holds c m)); L (map sxS (holds c io));
-          sx_of_res sx_of_dict (run_spec (cC c) (cO c) (cT c)); sxBool (validb c) ]
+          sx_of_res sx_of_dict (run_spec (cV c) (cC c) (cO c) (cT c)); sxBool (validb c) ]
   end.
